@@ -168,7 +168,10 @@ def check(run):
         while p is not None and p is not f.node:
             if isinstance(p, ast.If):
                 pol = any(in_subtree(node, b) for b in p.body)
-                out.append(("" if pol else "not ") + unparse(alpha(p.test, ren)))
+                t = p.test
+                while isinstance(t, ast.UnaryOp) and isinstance(t.op, ast.Not):     # `not X` in the else side is X
+                    t, pol = t.operand, not pol
+                out.append(("" if pol else "not ") + unparse(alpha(t, ren)))
             cur, p = p, parent(p)
         return out
     for n in walk_local(reqs.node):
